@@ -669,7 +669,8 @@ impl TTS {
         for cap in full_attr_re.captures_iter(str) {
             let mut amount = 0;
             for c in sub_attr_re.captures_iter(&cap[0]) {
-                amount = std::cmp::max(amount, c[1].parse::<usize>().unwrap());
+                // a pause computed from an extreme Rate / PauseFactor can have more digits than a usize holds: the longest pause there is
+                amount = std::cmp::max(amount, c[1].parse::<usize>().unwrap_or(usize::MAX));
             };
             merges_string = merges_string.replace(&cap[0], &replace_with(amount));
         }
